@@ -198,12 +198,26 @@ pub fn case(cx: &mut Case) -> CaseResult {
     }
     if mode == 2 {
         // refusal clause
-        let k = cx.src.range(46, 70);
+        // half of the bombs have a non-empty source type (a jet doubled k = 46..130 times: the
+        // bounds saturate, and the limit check must still add them to the io widths safely)
+        let with_source = cx.src.bool();
+        let k = if with_source { cx.src.range(46, 130) } else { cx.src.range(46, 70) };
         cx.label("mode: type bomb (refusal)");
-        cx.fp.write_u64(0xb0b0 + k as u64);
-        let prog = bomb_program(k);
-        cx.set_sample(|| json!({"mode": "type bomb", "doublings": k, "middle_type_bits": format!("2^{}", k)}));
-        let redeem = match build_redeem(&prog, true, &HashMap::new()) {
+        cx.label_if(with_source, "bomb: non-empty source type");
+        cx.fp.write_u64(0xb0b0 + k as u64 + if with_source { 1000 } else { 0 });
+        let prog = if with_source {
+            let mut nodes = vec![Ir::Jet(JetRef::Core(simplicity::jet::Core::Ch8))];
+            for i in 0..k {
+                nodes.push(Ir::Pair(i, i));
+            }
+            nodes.push(Ir::Unit);
+            nodes.push(Ir::Comp(k, k + 1));
+            Prog { nodes, root: k + 2, family: Family::Core }
+        } else {
+            bomb_program(k)
+        };
+        cx.set_sample(|| json!({"mode": "type bomb", "doublings": k, "middle_type_bits": format!("2^{}", k), "non_empty_source": with_source}));
+        let redeem = match build_redeem(&prog, !with_source, &HashMap::new()) {
             Ok(r) => r,
             // being rejected earlier (e.g. by a type-size check) is also a refusal
             Err(BuildError::Type(_)) | Err(BuildError::Finalize(_)) => {
